@@ -3,7 +3,7 @@ CONF = {
     'coq_sample': 15,   # cases re-evaluated inside Coq by vm_compute against the extracted runner's output
     'interesting': ['truncated-prefix-of-valid', 'option-length-extreme', 'residue-options', 'multi-option',
                     'odd-payload', 'dirty-buffer', 'no-fixlengths', 'error-after-add', 'error-residue', 'option-string'],
-    'rule': 'Kinds hdr/rs/ra/ns/na/rd/opts. Messages built field by field by the harness with 0..5 options, every truncation length, '
+    'rule': 'Kinds hdr/rs/ra/ns/na/rd/opts/echo. Messages built field by field by the harness with 0..5 options, every truncation length, '
             'every option length byte forced to 0,1,255,+-1; the ICMPv6 layers of the packet literals of layers/*_test.go (go/ast) whole, '
             'at every truncation length and with length bytes forced; ordered pairs into a reused object (first leaves options, second has '
             'fewer/none/fails); serialization of decoded values, error-path residues and values built from public fields (address lengths '
